@@ -517,16 +517,43 @@ func (r *Rng) perm(n int) []int {
 
 var annTags = []string{"t1", "t2", "t3"}
 
+func annReferenced(set map[[3]int32]annElem, p [3]int32) bool {
+	for _, e := range set {
+		for _, rl := range e.Rels {
+			if rl.To == p {
+				return true
+			}
+		}
+	}
+	return false
+}
+
 func (w *World) annPost(n *wnode) {
 	k := 1 + w.r.Intn(3)
 	var els []annElem
 	for i := 0; i < k; i++ {
 		pos := [3]int32{int32(w.r.Intn(lmN)), int32(w.r.Intn(lmN)), int32(w.r.Intn(lmN))}
-		if w.r.Chance(0.25) && len(n.ann) > 0 { // overwrite an existing position
-			for p := range n.ann {
-				pos = p
-				break
+		if w.r.Chance(0.25) && len(n.ann) > 0 { // overwrite an existing position (one not in any relationship:
+			// overwriting a partner leaves one-sided references, which no property speaks about)
+			var cand [][3]int32
+			for p, e := range n.ann {
+				if len(e.Rels) == 0 && !annReferenced(n.ann, p) {
+					cand = append(cand, p)
+				}
 			}
+			sort.Slice(cand, func(i, j int) bool { return fmt.Sprint(cand[i]) < fmt.Sprint(cand[j]) })
+			if len(cand) > 0 {
+				pos = cand[w.r.Intn(len(cand))]
+			}
+		}
+		dup := false
+		for _, x := range els {
+			if x.Pos == pos {
+				dup = true
+			}
+		}
+		if dup {
+			continue
 		}
 		e := annElem{Pos: pos, Kind: []string{"PostSyn", "PreSyn", "Note"}[w.r.Intn(3)], Tags: []string{}, Prop: map[string]string{"n": fmt.Sprint(w.r.Intn(100))}, Rels: []annRel{}}
 		for _, t := range annTags {
@@ -535,6 +562,9 @@ func (w *World) annPost(n *wnode) {
 			}
 		}
 		els = append(els, e)
+	}
+	if len(els) == 0 {
+		return
 	}
 	if len(els) >= 2 && w.r.Chance(0.5) { // mutual relationship
 		els[0].Rels = []annRel{{"PostSynTo", els[1].Pos}}
